@@ -104,6 +104,8 @@ type Result struct {
 	Verdict Verdict
 	Reasons []string
 	Codes   []string // reject reason classes (format strings with verbs stripped)
+	Pkgs    map[string]bool // packages owning the named types rendered by the conversions
+	NeedFmt bool            // an enum @error/@panic action is part of the plan
 	Plan    *rt.PlanSet
 	// Fallible: the top method needs an error result
 	States      map[string]bool
@@ -135,7 +137,7 @@ func (m *modeler) unspec(format string, a ...any) {
 
 // Judge computes verdict and plan of one declared method of the converter.
 func Judge(conv *Converter, meth *Method) *Result {
-	m := &modeler{conv: conv, defs: map[string]*rt.Plan{}, res: &Result{States: map[string]bool{}}, pending: map[string]bool{}}
+	m := &modeler{conv: conv, defs: map[string]*rt.Plan{}, res: &Result{States: map[string]bool{}, Pkgs: map[string]bool{}}, pending: map[string]bool{}}
 	root := m.method(meth)
 	m.res.Plan = &rt.PlanSet{Root: root, Defs: m.defs}
 	return m.res
@@ -151,6 +153,8 @@ func fieldsKeyOf(t *space.Ty) string {
 }
 
 func (m *modeler) method(meth *Method) *rt.Plan {
+	meth.Src.UsesPkgs("\x00", m.res.Pkgs)
+	meth.Dst.UsesPkgs("\x00", m.res.Pkgs)
 	e := &env{set: meth.Set, method: meth, fieldsKey: fieldsKeyOf(meth.Dst), srcKey: meth.Src.Key(), dstKey: meth.Dst.Key(),
 		seen: map[string]bool{}, explicit: true, ctx: meth.CtxTypes, hasErr: meth.HasErr}
 	if meth.NFieldSettings > 0 {
@@ -248,6 +252,8 @@ func (m *modeler) isEnum(set Settings, t *space.Ty) bool {
 func (m *modeler) pos(e *env, s, t *space.Ty) *rt.Plan {
 	m.res.Transitions++
 	m.res.States[s.Key()+"→"+t.Key()] = true
+	s.UsesPkgs("\x00", m.res.Pkgs)
+	t.UsesPkgs("\x00", m.res.Pkgs)
 	if c := m.findExtend(s, t); c != nil {
 		return m.custom(e, c, s, t)
 	}
@@ -826,6 +832,14 @@ func (m *modeler) enum(e *env, s, t *space.Ty) *rt.Plan {
 	}
 	if failed {
 		return nil
+	}
+	for _, a := range ep.Cases {
+		if a == "@error" || a == "@panic" {
+			m.res.NeedFmt = true
+		}
+	}
+	if ep.Unknown == "@error" || ep.Unknown == "@panic" {
+		m.res.NeedFmt = true
 	}
 	return &rt.Plan{Op: "enum", Enum: ep}
 }
